@@ -416,7 +416,7 @@ CONC_MONITORS = {
 }
 
 
-def mirror_concurrent(c, monitors, what, quick=(12, 8), thorough=(120, 12)):
+def mirror_concurrent(c, monitors, what, quick=(30, 10), thorough=(150, 12)):
     """Batches of overlapping vote messages delivered by CONCURRENT callers of the real mirror, some of which give up
     (context cancelled) while the kernel works on their request; after every batch the kernel must still answer, and the
     Coq monitors judge the observations (views, stores, what the consumers received). Reports concrete violations only."""
